@@ -7,7 +7,10 @@ cd /repo || exit 2
 if ! git diff --quiet; then echo "/repo has uncommitted changes; refusing"; exit 2; fi
 if ! git apply --check "$PATCH" 2>/dev/null; then echo "patch does not apply: $PATCH"; exit 2; fi
 git apply "$PATCH"
-trap 'git -C /repo checkout -- . ; git -C /repo clean -fdq -- tests src 2>/dev/null' EXIT
+# evidence written while a seeded change is applied must never replace the evidence of the unchanged tree
+EVBAK=$(mktemp -d /verif/target/evidence-backup.XXXXXX)
+cp -a /verif/evidence/. "$EVBAK"/ 2>/dev/null
+trap 'git -C /repo checkout -- . ; git -C /repo clean -fdq -- tests src 2>/dev/null; rm -rf /verif/evidence; mkdir -p /verif/evidence; cp -a "$EVBAK"/. /verif/evidence/; rm -rf "$EVBAK"' EXIT
 cd /verif
 for c in "$@"; do
   start=$(date +%s)
